@@ -47,7 +47,7 @@ impl Prop for C11 {
         "sizes {0, 1 MiB, 16 MiB, 64 MiB} quick / up to 1 GiB thorough, both modes, both directions, full and short (40000-byte) reads: plaintext comes from a generator source, output goes to a discarding sink; \
          measured with a counting allocator on the calling thread: peak live heap during the call must stay below one fixed constant (1 MiB key mode, 40 MiB password mode = scrypt arena) whatever the size; \
          at every write call: encryption — when the write that starts record i begins at most i+2 read calls have completed; decryption — the source position is at most the end of record i (+1). \
-         non-trivial = distinct (mode, direction, size, read size)".into()
+         the real binary (both modes, both directions, output to a file and to stdout): peak resident memory (measured by /usr/bin/time) for a 96 MiB (thorough 256 MiB) input may exceed that for 8 MiB by at most 16 MiB. non-trivial = distinct (mode, direction, size, read size)".into()
     }
     fn cases(&self, tier: &str, seed: u64) -> Vec<Case> {
         let th = tier == "thorough";
@@ -58,10 +58,33 @@ impl Prop for C11 {
             if mode == "pass" && sz > (64 << 20) { continue; }
             v.push(case(&[("mode", mode.into()), ("size", sz.to_string()), ("maxread", (if mr == usize::MAX { 0 } else { mr }).to_string()), ("seed", rng.next().to_string())]));
         } } }
+        for dir in ["decrypt", "encrypt"] { for mode in ["key", "pass"] { for out in ["stdout", "file"] { v.push(case(&[("mode", format!("cli-{}", mode)), ("dir", dir.into()), ("out", out.into()), ("size", (if th { 256usize << 20 } else { 96 << 20 }).to_string()), ("seed", rng.next().to_string())])); } } }
         v
     }
     fn run(&self, c: &Case, _m: &mut Model) -> Outcome {
         let mut o = Outcome::default();
+        if get(c, "mode").starts_with("cli-") {
+            // the real binary: peak resident memory must not grow with the input (8 MiB vs the big size), whether output goes to a file or to stdout
+            use crate::cli::*;
+            let fx = fixtures(); let keym = get(c, "mode") == "cli-key"; let dec = get(c, "dir") == "decrypt"; let to_file = get(c, "out") == "file";
+            let pw = "pass123"; let big = getn(c, "size");
+            let mut rss = vec![];
+            for size in [8usize << 20, big] {
+                let plain: Vec<u8> = (0..size).map(|i| (i as u8).wrapping_mul(31).wrapping_add((i >> 11) as u8)).collect();
+                let input = if !dec { plain } else if keym { crate::imp::key_encrypt(&fx.alice.sk, &fx.alice.pk, &fx.bob.pk, None, None, &plain, &crate::imp::NOSCRIPT).out } else { crate::imp::pass_encrypt(pw.as_bytes(), &[7u8; 32], &plain, &crate::imp::NOSCRIPT).out };
+                let world = World { files: vec![("in.bin".into(), input), ("kr.txt".into(), keyring(&[(&fx.alice, true), (&fx.bob, true)]).into_bytes())], env: vec![("KESTREL_PASSWORD".into(), if keym { if dec { fx.bob.pw.into() } else { fx.alice.pw.into() } } else { pw.into() })], stdin: vec![] };
+                let mut args: Vec<String> = match (keym, dec) { (true, true) => sv(&["decrypt", "in.bin", "-t", "bob", "-k", "kr.txt", "--env-pass"]), (true, false) => sv(&["encrypt", "in.bin", "-t", "bob", "-f", "alice", "-k", "kr.txt", "--env-pass"]),
+                    (false, true) => sv(&["password", "decrypt", "in.bin", "--env-pass"]), (false, false) => sv(&["password", "encrypt", "in.bin", "--env-pass"]) };
+                if to_file { args.push("-o".into()); args.push("out.bin".into()); }
+                let (obs, kb) = run_kestrel_rss(&world, &args, 120);
+                if !obs.stderr.contains("done") { o.oracle_fail = Some(("command-succeeds".into(), format!("{:?}: {}", args, obs.stderr.trim()))); return o; }
+                rss.push(kb);
+            }
+            o.impl_obs = format!("peak RSS {} KiB at 8 MiB, {} KiB at {} MiB", rss[0], rss[1], big >> 20);
+            o.nontrivial = Some(format!("{}/{}/{}", get(c, "mode"), get(c, "dir"), get(c, "out"))); o.tags.push(format!("cli {} {}", get(c, "dir"), get(c, "out")));
+            if rss[1] > rss[0] + (16 << 10) { o.oracle_fail = Some(("constant-memory".into(), format!("kestrel {} ({} mode, output to {}): peak resident memory grows with the input: {} KiB for 8 MiB, {} KiB for {} MiB", get(c, "dir"), get(c, "mode"), get(c, "out"), rss[0], rss[1], big >> 20))); }
+            return o;
+        }
         let mut rng = Rng::new(get(c, "seed").parse().unwrap_or(0));
         let size = getn(c, "size"); let maxread = if getn(c, "maxread") == 0 { usize::MAX } else { getn(c, "maxread") };
         let keym = get(c, "mode") == "key";
@@ -85,10 +108,10 @@ impl Prop for C11 {
                 if nreads > i + 2 { Some(format!("when record {} was written {} read calls had completed (more than {} chunks buffered ahead)", i, nreads, nreads - i - 1)) } else { None }
             };
             let mut sink = CheckSink { written: 0, keep: Some(&mut ct), pos: pos.clone(), reads: reads.clone(), worst: None, check: Box::new(check) };
-            let base = crate::alloc::reset();
+            let base = kalloc::alloc::reset();
             let res = if keym { encrypt::key_encrypt(&mut src, &mut sink, &crate::imp::sk(&s), &crate::imp::pk(&spk), &crate::imp::pk(&rpk), None, None, None::<&PayloadKey>, AsymFileFormat::V1).is_ok() }
                       else { encrypt::pass_encrypt(&mut src, &mut sink, &pw, salt, PassFileFormat::V1).is_ok() };
-            peak_enc = crate::alloc::peak_since(base);
+            peak_enc = kalloc::alloc::peak_since(base);
             worst_enc = sink.worst.take();
             if !res { o.oracle_fail = Some(("encrypt-succeeds".into(), "error".into())); return o; }
         }
@@ -104,9 +127,9 @@ impl Prop for C11 {
                 if p > end + 1 { Some(format!("when plaintext chunk {} was written the source had been read up to offset {}, past the end of its record ({})", i, p, end)) } else { None }
             };
             let mut sink = CheckSink { written: 0, keep: None, pos: pos2.clone(), reads: reads2.clone(), worst: None, check: Box::new(check) };
-            let base = crate::alloc::reset();
+            let base = kalloc::alloc::reset();
             let ok = if keym { decrypt::key_decrypt(&mut src, &mut sink, &crate::imp::sk(&r), &crate::imp::pk(&rpk), AsymFileFormat::V1).is_ok() } else { decrypt::pass_decrypt(&mut src, &mut sink, &pw, PassFileFormat::V1).is_ok() };
-            peak_dec = crate::alloc::peak_since(base);
+            peak_dec = kalloc::alloc::peak_since(base);
             worst_dec = sink.worst.take(); total = sink.written;
             if !ok || total != size { o.oracle_fail = Some(("decrypt-succeeds".into(), format!("ok={} bytes={}", ok, total))); return o; }
         }
